@@ -590,7 +590,8 @@ func (e *Engine) load(st *State, l *Loc) *Term {
 		case b.S.IsSlice():
 			return Select(Acc(b, "arr"), l.Idx)
 		case b.S.IsMap():
-			return Select(Acc(b, "val"), l.Idx)
+			// m[k].f of an absent key reads the zero value
+			return Ite(Select(Acc(b, "dom"), l.Idx), Select(Acc(b, "val"), l.Idx), e.zeroValue(l.T))
 		case b.S.Kind == SArr:
 			return Select(b, l.Idx)
 		}
